@@ -160,6 +160,36 @@ def real_read(chk: core.Check, tabs):
                     chk.failing_input(f"raw read with ID decoding and sub_detectors={sel}: {d} id", {"sub_detectors": sel, "electronics_id": int(rid[i])}, hex(int(tid[i])), hex(int(want[i])),
                                       "the id of every digi is the table image of the electronics id returned with decoding disabled (for every selection of sub-detectors)")
                     return
+        # the same relation through concatenate_raw (several files; decoding on / off passed explicitly), and the electronics ids returned with
+        # decoding disabled are the ones encoded in the file
+        small = [[rf.gen_event(__import__("random").Random(int(rng.integers(1 << 30))), k)] for k in range(6)]
+        path2 = rc.write_tmp(rf.enc_file(small))
+        try:
+            with rc.NativeBackedReader():
+                cr = pybes3.concatenate_raw([path2, path, path2], decode_reid=False, n_block_per_batch=9)
+                cd = pybes3.concatenate_raw([path2, path, path2], decode_reid=True, n_block_per_batch=6)
+                with pybes3.open_raw(path2) as r:
+                    r2 = r.arrays(decode_reid=False)
+        finally:
+            os.unlink(path2)
+        enc = rf.expected([e for b in small for e in b], None)
+        for d in ("mdc", "tof", "emc", "muc"):
+            chk.count(1, key=f"concatenate-{d}")
+            want_first = [row["id"] for rec in enc for row in rec[d]]
+            n2 = len(want_first)
+            rid = ak.to_numpy(ak.flatten(cr[d]["id"])).astype(np.int64)
+            tid = ak.to_numpy(ak.flatten(cd[d]["id"]))
+            same_as_single = ak.to_numpy(ak.flatten(r2[d]["id"])).astype(np.int64).tolist() == want_first
+            if rid[:n2].tolist() != want_first or not same_as_single:
+                chk.failing_input(f"concatenate_raw(files, decode_reid=False): {d} id", {"files": 3, "first_encoded_electronics_ids": want_first[:8]}, [hex(int(x)) for x in rid[:8]], [hex(x) for x in want_first[:8]],
+                                  "with decoding disabled the read returns the electronics ids encoded in the file")
+                return
+            want = tabs[d][rid]
+            if len(tid) != len(want) or not np.array_equal(tid.astype(np.uint64), want.astype(np.uint64)):
+                i = int(np.nonzero(tid.astype(np.uint64) != want.astype(np.uint64))[0][0]) if len(tid) == len(want) else 0
+                chk.failing_input(f"concatenate_raw(files, decode_reid=True) vs decode_reid=False: {d} id", {"files": 3, "electronics_id": int(rid[i])}, hex(int(tid[i])), hex(int(want[i])),
+                                  "the id of every digi is the table image of the electronics id that the same read returns with decoding disabled")
+                return
     except IndexError as ex:
         chk.failing_input("raw read with ID decoding of a file containing every representable electronics id", {"file": "every 14/10/13/11-bit id of mdc/tof/emc/muc once"}, f"IndexError: {ex}", "decoded arrays", "mapped ... without ever indexing outside the table")
     finally:
